@@ -1333,9 +1333,8 @@ class GeoRing(PolygonBase):
 
     def to_polygon(self, **kwargs) -> GeoPolygon:
         rings = self.linear_rings(**kwargs)
-        holes = self.holes
-        if len(rings) > 1:
-            holes += [GeoPolygon(x) for x in rings[1:]]
+        # rings[1:] already holds the inner circle (if any) and every hole of this shape
+        holes = [GeoPolygon(x) for x in rings[1:]]
 
         return GeoPolygon(
             rings[0],
